@@ -707,7 +707,7 @@ func (f *frame) call(in ssa.Instruction, c *ssa.CallCommon, rc Ref, typ types.Ty
 			f.addEffect(Effect{Cond: rc, Kind: "call", Call: e, Pos: in.Pos(), Ins: in})
 			return e
 		case "min", "max":
-			return u.mk("call", "builtin."+b.Name(), typ, args...)
+			return u.LibCall("builtin."+b.Name(), typ, args...)
 		case "panic":
 			f.sum.Panics = u.bdd.Or(f.sum.Panics, rc)
 			e := u.mk("call", "builtin.panic", typ, args...)
